@@ -478,6 +478,108 @@ func pureScan(c *Ctx, key string, roots ...*ssa.Function) {
 	if bad == 0 {
 		c.R.OK(key, "", "%d functions reachable from the entry points: no store to, and no mutating call on, package-level state", n)
 	}
+	sentinelScan(c, key, seen)
+}
+
+// sentinelScan: the documented error kinds stay distinguishable. Every package-level error variable of the repository
+// that a function reachable from the API roots loads (and so may return, bare or wrapped) is initialised once, by the
+// package initialiser, with errors.New, with fmt.Errorf without %%w, or with a boxed value whose type declares none of
+// Is / As / Unwrap — so errors.Is(err, ErrA) holds only for errors built from ErrA itself, never for a sibling kind.
+func sentinelScan(c *Ctx, pureKey string, fns map[*ssa.Function]bool) {
+	key := pureKey
+	if i := strings.Index(key, "."); i > 0 {
+		key = key[:i]
+	}
+	key += ".sentinels.distinct"
+	errT := types.Universe.Lookup("error").Type().Underlying().(*types.Interface)
+	globals := map[*ssa.Global]bool{}
+	for fn := range fns {
+		for _, blk := range fn.Blocks {
+			for _, ins := range blk.Instrs {
+				ld, ok := ins.(*ssa.UnOp)
+				if !ok || ld.Op.String() != "*" {
+					continue
+				}
+				g, ok := ld.X.(*ssa.Global)
+				if !ok || !ana.InRepo2(g) || !types.Implements(ld.Type(), errT) {
+					continue
+				}
+				globals[g] = true
+			}
+		}
+	}
+	bad := 0
+	var check func(v ssa.Value, depth int) string
+	check = func(v ssa.Value, depth int) string {
+		switch x := v.(type) {
+		case *ssa.MakeInterface:
+			return check(x.X, depth)
+		case *ssa.ChangeInterface:
+			return check(x.X, depth)
+		case *ssa.Call:
+			cal := x.Call.StaticCallee()
+			if cal == nil {
+				return ""
+			}
+			switch cal.String() {
+			case "errors.New":
+				return ""
+			case "fmt.Errorf":
+				if len(x.Call.Args) > 0 {
+					if k, ok := x.Call.Args[0].(*ssa.Const); ok && k.Value != nil && strings.Contains(k.Value.ExactString(), "%w") {
+						return "is built with fmt.Errorf(\"…%w…\") and so matches the error it wraps"
+					}
+				}
+				return ""
+			}
+			if depth < 2 && ana.InRepo(cal) && cal.Blocks != nil {
+				for _, e := range ana.Exits(cal) {
+					if !e.Panic && len(e.Results) == 1 {
+						if why := check(e.Results[0], depth+1); why != "" {
+							return why
+						}
+					}
+				}
+			}
+			return ""
+		}
+		t := v.Type()
+		for _, tt := range []types.Type{t, types.NewPointer(t)} {
+			ms := types.NewMethodSet(tt)
+			for _, name := range []string{"Is", "As", "Unwrap"} {
+				if sel := ms.Lookup(nil, name); sel != nil {
+					return "has dynamic type " + types.TypeString(t, nil) + " with method " + name + ": errors.Is / errors.As no longer compare it by identity"
+				}
+				for i := 0; i < ms.Len(); i++ {
+					if ms.At(i).Obj().Name() == name {
+						return "has dynamic type " + types.TypeString(t, nil) + " with method " + name + ": errors.Is / errors.As no longer compare it by identity"
+					}
+				}
+			}
+		}
+		return ""
+	}
+	for g := range globals {
+		for _, mem := range g.Pkg.Members {
+			fn, ok := mem.(*ssa.Function)
+			if !ok || fn.Synthetic != "package initializer" {
+				continue
+			}
+			for _, blk := range fn.Blocks {
+				for _, ins := range blk.Instrs {
+					if st, ok := ins.(*ssa.Store); ok && st.Addr == g {
+						if why := check(st.Val, 0); why != "" {
+							bad++
+							c.R.Viol(key, c.ipos(st), "error variable %s %s", g.Name(), why)
+						}
+					}
+				}
+			}
+		}
+	}
+	if bad == 0 {
+		c.R.OK(key, "", "%d package-level error variables loaded by the reachable functions: each compares by identity (errors.New / no Is, As, Unwrap method)", len(globals))
+	}
 }
 
 // globalRoot returns the package-level variable v is (an address into) or was loaded from.
